@@ -4,6 +4,8 @@ import (
 	"context"
 	"encoding/json"
 	"fmt"
+	"k3l.io/go-eigentrust/pkg/basic"
+	"reflect"
 	"runtime"
 	"sync"
 	"sync/atomic"
@@ -82,12 +84,20 @@ func genC06(r *Rng, tier string) []*Case {
 		if k%4 == 0 {
 			n = 100 + r.Intn(200)
 		}
+		if k%3 == 1 {
+			n = 2 + r.Intn(10) // flat-tail cases: small enough for the ranking (ties, sort) to be modelled
+		}
 		c, p, _ := randGraph(r, n)
 		cc, pc, err := canonInputs(c, p)
 		if err != nil {
 			continue
 		}
 		in := ComputeIn{C: cc, P: pc, A: JFloat([]float64{0.5, 0.3, 0.15}[r.Intn(3)]), E: JFloat(1e-8), Fuel: 1000, WatchdogMs: 60000}
+		if k%3 == 1 {
+			// flat tail as the binding criterion: a loose epsilon, so that the run ends when the ranking has been
+			// stable for the required number of checks
+			in.FlatTail, in.E = ip(3+r.Intn(5)), JFloat(0.5)
+		}
 		if r.Bool() {
 			t0 := canonVec(Vec{Dim: n, Ents: sortedSpan(r, n, 60, 0, r.Pos)})
 			in.T0 = &t0
@@ -186,6 +196,40 @@ func runC06(c *Case) error {
 		for _, o := range distinct {
 			first = o
 			break
+		}
+		// the same computation by callers that pass no statistics struct (the checker's private default), several at
+		// once: each must return the very vector of the runs above
+		if len(distinct) == 1 && first.Kind == "done" && first.T != nil {
+			noStats := func() {
+				opts := []basic.ComputeOpt{}
+				if in.T0 != nil {
+					opts = append(opts, basic.WithInitialTrust(in.T0.sparse()))
+				}
+				if in.FlatTail != nil {
+					opts = append(opts, basic.WithFlatTail(*in.FlatTail))
+				}
+				t, err := basic.Compute(newFuelCtx(context.Background(), in.Fuel), in.C.csr(), in.P.sparse(), float64(in.A), float64(in.E), opts...)
+				mu.Lock()
+				defer mu.Unlock()
+				runs++
+				if err != nil || t == nil || !reflect.DeepEqual(vecOf(t), *first.T) {
+					o := first
+					o.Kind = "no-stats caller: different result"
+					if t != nil {
+						v := vecOf(t)
+						o.T = &v
+					}
+					b, _ := json.Marshal(o)
+					distinct[string(b)] = o
+				}
+			}
+			for round := 0; round < 3; round++ {
+				for g := 0; g < 6; g++ {
+					wg.Add(1)
+					go func() { defer wg.Done(); noStats() }()
+				}
+				wg.Wait()
+			}
 		}
 		c.setObs(map[string]interface{}{"first": first, "distinct": len(distinct), "runs": runs, "inputs_same": same})
 		c.coq = fmt.Sprintf("ComputeRuns (%s) %d %d %s", coqCompute(&in, &first), len(distinct)-1, runs, cBool(same))
